@@ -483,6 +483,23 @@ class extract_visitor(NodeVisitor):
         self.flow.scope.flow = self.flow
         node.all_flow = ends[-1]  # type: ignore[attr-defined]
 
+    def visit_Compare(self, node):
+        # type: (ast.Compare) -> None
+        self.visit(node.left)
+        self.visit(node.comparators[0])
+        rest = node.comparators[1:]
+        if not any(binds_names(v) for v in rest):
+            for v in rest:
+                self.visit(v)
+            return
+
+        # a < b < c: c is evaluated only when a < b holds
+        ends = [self.flow]
+        for v in rest:
+            ends.append(self.visit_in_flow(v, self.make_flow('compare', [ends[-1]])))
+        self.flow = self.make_flow('join', ends)
+        self.flow.scope.flow = self.flow
+
     def visit_NamedExpr(self, node):
         # type: (ast.NamedExpr) -> None
         eend = get_expr_end(node.value)
